@@ -117,21 +117,43 @@ impl SymExpr {
                 }
             }
             Self::Neg(x) => {
-                if x.is_positive() {
-                    (i32::MIN, -1)
-                } else {
-                    (i32::MIN, i32::MAX)
-                }
+                let (min, max) = x.range();
+                (0i32.saturating_sub(max), 0i32.saturating_sub(min))
             }
-            Self::Add(lhs, rhs)
-            | Self::Mul(lhs, rhs)
-            | Self::Max(lhs, rhs)
-            | Self::Min(lhs, rhs)
-            | Self::Div(lhs, rhs)
-            | Self::DivCeil(lhs, rhs) => {
+            Self::Add(lhs, rhs) => {
+                let (lhs_min, lhs_max) = lhs.range();
+                let (rhs_min, rhs_max) = rhs.range();
+                (
+                    lhs_min.saturating_add(rhs_min),
+                    lhs_max.saturating_add(rhs_max),
+                )
+            }
+            Self::Mul(lhs, rhs) => {
+                // The extremes of a product over two intervals are attained at
+                // the corners.
+                let (lhs_min, lhs_max) = lhs.range();
+                let (rhs_min, rhs_max) = rhs.range();
+                let a = lhs_min.saturating_mul(rhs_min);
+                let b = lhs_min.saturating_mul(rhs_max);
+                let c = lhs_max.saturating_mul(rhs_min);
+                let d = lhs_max.saturating_mul(rhs_max);
+                (a.min(b).min(c.min(d)), a.max(b).max(c.max(d)))
+            }
+            Self::Max(lhs, rhs) | Self::Min(lhs, rhs) => {
                 let (lhs_min, lhs_max) = lhs.range();
                 let (rhs_min, rhs_max) = rhs.range();
                 (lhs_min.min(rhs_min), lhs_max.max(rhs_max))
+            }
+            Self::Div(lhs, rhs) | Self::DivCeil(lhs, rhs) => {
+                // Dividing by a value >= 1 moves the dividend towards zero.
+                // For other divisors the result may change sign.
+                let (lhs_min, lhs_max) = lhs.range();
+                let (rhs_min, _rhs_max) = rhs.range();
+                if rhs_min >= 1 {
+                    (lhs_min.min(0), lhs_max.max(0))
+                } else {
+                    (i32::MIN, i32::MAX)
+                }
             }
             Self::Sub(_lhs, _rhs) => {
                 // Note: Unlike for addition, subtraction involving two
